@@ -3,6 +3,7 @@ import json
 import re
 
 from lib import common as C
+from lib import condcorr
 from lib import corr
 from lib import execcorr
 from lib import infergen
@@ -18,7 +19,10 @@ MANIFEST = {
             "is proved on a model of calculateExecutionType: Self is the receiver, Unify the union of its element types, "
             "OptionalUnify the same with NilClass, Argument nil / the argument / the array of the arguments, SelfArray and "
             "KeyValueArray arrays of the receiver's element / value types, a union return every variant resolved and unified "
-            "(C09_return_*). Tie: calculateExecutionType is called through a hook on generated receivers, return types "
+            "(C09_return_*); which alternative of a conditional return type a call gets is modelled too (conditioningMethodReturn: "
+            "by the number of non-block arguments under an optional parameter, by the first argument of the parameter's kind "
+            "otherwise; C09_conditional_return_*), the tie comparing the picked alternative and the panic when the code indexes "
+            "past the alternatives. Tie: calculateExecutionType is called through a hook on generated receivers, return types "
             "(special types, unions and arrays of them, plain types, `new`), arguments and block values, and both the resolved "
             "type and the receiver afterwards are compared with the model (the receiver must be untouched); T.AppendVariant, "
             "T.UnifyVariants, base.TypeToString and HashReference over AppendHashVariant are executed through the harness on "
@@ -32,13 +36,12 @@ MANIFEST = {
     "technique": "Coq proof (hash lookup over AppendHashVariant; union of scalars through AppendVariant; resolution of special return types); correspondence by "
                  "vm_compute through the harness; end-to-end comparison with the reference rules",
 }
-REQUIRES = ["Model/Infer.v", "Model/TyOps.v", "Model/ExecType.v"]
+REQUIRES = ["Model/Infer.v", "Model/TyOps.v", "Model/ExecType.v", "Model/CondReturn.v"]
 RULE = ("hooks: types of depth <= 2 from 19 scalar shapes, arrays, hashes, unions; hashes of 0-5 pairs over 5 keys with repeated "
         "keys and nil values; end to end: 12-step programs; non-trivial = a nested literal, a repeated key or a growth step")
 TRUSTED = []
 ASSUMPTIONS = []
-PARTIAL = ["OWNER returns and return types written as a namespace path are not modelled; conditional returns "
-           "(conditioningMethodReturn) are exercised end to end only", "nested hashes and arrays of hashes: exploration only"]
+PARTIAL = ["OWNER returns and return types written as a namespace path are not modelled", "nested hashes and arrays of hashes: exploration only"]
 
 
 def part_tyops_corr(ctx, part):
@@ -125,7 +128,7 @@ def part_e2e(ctx, part):
         part.sample({"lines": len(src.split("\n")), "probes": len(exp)})
 
 
-PARTS = [part_tyops_corr, part_hash_corr, execcorr.part_exec_type, part_e2e]
+PARTS = [part_tyops_corr, part_hash_corr, execcorr.part_exec_type, condcorr.part_cond_return, part_e2e]
 
 
 def replay(path):
